@@ -722,6 +722,10 @@ func (ipcp *IPCPStateMachine) timeout() {
 			ipcp.sendTerminateRequest("Timeout")
 		case IPCPStateReqSent, IPCPStateAckRcvd, IPCPStateAckSent:
 			ipcp.sendConfigureRequest()
+			if ipcp.state == IPCPStateAckRcvd {
+				// the new request is unacknowledged: back to Req-Sent (RFC 1661: TO+ in Ack-Rcvd -> scr/Req-Sent)
+				ipcp.setState(IPCPStateReqSent)
+			}
 		}
 	} else {
 		switch ipcp.state {
